@@ -108,6 +108,10 @@ def nested_templates(tier):
             inner = element(tag="span", body="child-body", static='class="c" title="child-title"', **c2)
             after = element(tag="b", body="after", static="", content=("c", "v1 | it | string:restored"))
             out.append("<html><body>" + element(body="[" + inner + "]", **p) + after + "</body></html>")
+            if "repeat" in p and "repeat" in c:
+                # what repeat/<name> means in the outer element once an inner loop (same or another variable name) is over
+                rp = element(tag="u", body="rp", static="", content=("c", "string:${repeat/it/number | string:-}.${repeat/it/end | string:-}.${repeat/o/length | string:-}.${repeat/j/index | string:-}"))
+                out.append("<html><body>" + element(body="[" + inner + "]" + rp, **p) + after + "</body></html>")
     return out
 
 
